@@ -37,3 +37,12 @@ From TrV Require Import Proofs.GuardsTie.
 Theorem C08_forward_allnodes_step_is_code : forall d p k st c, fwdall_step_code d p k st c = fwd_step d p k true st c.
 Proof. exact fwdall_step_tie. Qed.
 Print Assumptions C08_forward_allnodes_step_is_code.
+
+(* ---- THE FULL DECLARATIVE STATEMENT (Optimal.v), for every dataset, scenario, query and router table of the
+   property's domain: the departure accessibility map lists exactly the stops where some admissible journey prefix
+   alights a vehicle within max_travel_time, once each, with the earliest such alighting time; totals and
+   totalNodeCount as stated; and the answer is never a hang / crash / stray exception ---- *)
+From TrV Require Import Proofs.FwdOpt.
+Theorem C08_full_declarative : C08_decl_statement.
+Proof. exact C08_decl_proved. Qed.
+Print Assumptions C08_full_declarative.
